@@ -8,7 +8,7 @@ use std::ops::Range;
 
 /// An index for narrowing down a range before binary search.
 ///
-/// `SampleIndex` takes a strictly increasing sequence of `n` values in `0..universe`.
+/// `SampleIndex` takes a non-decreasing sequence of `n` values in `0..universe`.
 /// The first value must be `0`.
 /// The index chooses a divisor that partitions the universe into approximately `n / 8` ranges.
 /// Each range `i` contains the values in range `(i * divisor)..((i + 1) * divisor)`.
@@ -48,12 +48,12 @@ impl SampleIndex {
     ///
     /// # Arguments
     ///
-    /// * `values`: A strictly increasing sequence of values starting from `0`.
+    /// * `values`: A non-decreasing sequence of values starting from `0`.
     /// * `universe`: Universe size. The values must be in range `0..universe`.
     ///
     /// # Panics
     ///
-    /// Panics if the first value is not `0`, the sequence of values is not strictly increasing, or if universe size is too small for the values.
+    /// Panics if the first value is not `0`, the sequence of values is decreasing, or if universe size is too small for the values.
     pub fn new<T: Iterator<Item = usize> + ExactSizeIterator>(iter: T, universe: usize) -> Self {
         let mut iter = iter;
         let len = iter.len();
@@ -81,7 +81,7 @@ impl SampleIndex {
                 if value > threshold {
                     break;
                 }
-                assert!(prev < value, "SampleIndex::new(): The values must be strictly increasing");
+                assert!(prev <= value, "SampleIndex::new(): The values must be non-decreasing");
                 offset += 1;
                 prev = value;
                 next = iter.next();
